@@ -178,7 +178,9 @@ def _as_array_or_scalar(exprs: Sequence[ScalarExpression],
               and (binding_to_subscript[expr.aggregate.name]
                    == expr)):
             result.append(bindings[expr.aggregate.name])
-        elif isinstance(expr, p.NaN):
+        elif (isinstance(expr, p.NaN)
+              and (expr.data_type is None
+                   or np.issubdtype(expr.data_type, np.inexact))):
             if expr.data_type:
                 result.append(expr.data_type(float("nan")))
             else:
